@@ -105,7 +105,7 @@ def spellings(comp, bare=False):
     if comp in HALVES:
         c = comp
         out += [("glyph", f"{c}½"), ("slash", f"{c}/2"), ("bare", f"{c}2"), ("one", f"{c}1/2"),
-                ("one_sp", f"{c} 1/2"), ("slash_sp", f"{c} / 2"), ("slash_sp", f"{c} /2"),
+                ("one_sp", f"{c} 1/2"), ("slash_sp", f"{c} / 2"), ("slash_sp", f"{c} /2"), ("bare_sp", f"{c} 2"), ("bare_sp", f"{c}  2"),
                 ("word", f"{_DIR_WORD[c]} Half"), ("word", f"{_DIR_WORD[c]} 1/2"),
                 ("word", f"{_DIR_WORD[c]} One Half"), ("word", f"{_DIR_WORD[c]}½"),
                 ("dot", f"{c}. 1/2")]
@@ -114,7 +114,7 @@ def spellings(comp, bare=False):
     else:
         q = comp
         out += [("glyph", f"{q}¼"), ("slash", f"{q}/4"), ("bare", f"{q}4"), ("one", f"{q}1/4"),
-                ("one_sp", f"{q} 1/4"), ("slash_sp", f"{q} / 4"), ("slash_sp", f"{q} /4"),
+                ("one_sp", f"{q} 1/4"), ("slash_sp", f"{q} / 4"), ("slash_sp", f"{q} /4"), ("bare_sp", f"{q} 4"), ("bare_sp", f"{q}  4"),
                 ("word", f"{q} Quarter"), ("dot", f"{q[0]}.{q[1]}. 1/4")]
         for w in _Q_WORDS[q]:
             out += [("word", f"{w} Quarter"), ("word", f"{w} One Quarter"), ("word", f"{w} 1/4"),
